@@ -19,7 +19,7 @@ Definition all_finished (s : st) : bool :=
    before adding presence itself.  Since f4ffc2fd compensateRacedPresence compares the
    subscription generation, so the entry is removed. *)
 Definition tick_vs_resub : list label :=
-  [LSpawn OConnect] ++ rep 8 (LStep 0 true) ++
+  [LSpawn OConnect] ++ rep 9 (LStep 0 true) ++
   [LSpawn (OSubCli 0 op_)] ++ rep 11 (LStep 2 true) ++      (* subscribed with presence *)
   [LSpawn OTick] ++ rep 5 (LStep 4 true) ++                 (* tick: snapshot, alive, membership check; parked before AddPresence *)
   [LSpawn (OUnsubCli 0)] ++ rep 6 (LStep 6 true) ++         (* unsubscribe removes the presence entry *)
@@ -70,7 +70,7 @@ Qed.
 (* An unsubscribe's RemovePresence lands after the re-subscribe's AddPresence: the connection is
    subscribed with presence but absent from it until the next tick re-adds it. *)
 Definition transient_absence : list label :=
-  [LSpawn OConnect] ++ rep 8 (LStep 0 true) ++
+  [LSpawn OConnect] ++ rep 9 (LStep 0 true) ++
   [LSpawn (OSubCli 0 op_)] ++ rep 11 (LStep 2 true) ++
   [LSpawn (OUnsubCli 0); LStep 4 true; LStep 4 true] ++     (* snapshot + delete; parked before RemovePresence *)
   [LSpawn (OSubSrv 0 op_)] ++ rep 8 (LStep 6 true) ++       (* re-subscribe adds presence and commits *)
